@@ -414,3 +414,6 @@ def run(ctx: Ctx) -> None:
     from . import c05b
 
     c05b.run(ctx)
+    from . import c05text
+
+    c05text.run(ctx)
